@@ -9,7 +9,8 @@
 //!     seeded random sessions per route (re-connections, batches of several items per message)
 //!
 //! For every route (connector, subscription kind, instrument kind) and instrument flavour
-//! (`Keyed<u32, MarketDataInstrument>` / `MarketInstrumentData<u32>`):
+//! (`Keyed<u32, MarketDataInstrument>` / `MarketInstrumentData<u32>` / indexed: `IndexedInstruments` +
+//! real `index_market_data_subscription_batches` -> `Keyed<InstrumentIndex, MarketDataInstrument>`):
 //!   real `WebSocketSubMapper::map(&subscriptions)`
 //!   -> (Bitfinex: real `BitfinexWebSocketSubValidator::validate` over a loopback websocket served by
 //!      the simulated venue, so the channel-id rewrite of the map is executed)
@@ -27,7 +28,8 @@
 //! Encoding of the spec's abstract item (p, a, s, t): price = p/4, amount = a/4 (decimal strings or
 //! numbers as the venue sends them), side as the venue states it (sign of the amount for Gate.io
 //! futures and Bitfinex, buyer-is-maker flag for Binance), time = 2020-01-01T00:00:00Z + t * 500 ms.
-//! L1 books: the side s names the book side that holds (p, a); the other side holds (p+40, a+40).
+//! L1 books: the side s names the book side that holds (p, a); the other side holds (p+40, a+40), or -
+//! "bid_only" / "ask_only" - is empty (sent as price 0 / amount 0) and must be absent in the event.
 //! L2 updates: one level (p, a) on the bid (buy) or ask (sell) side; update ids follow the
 //! snapshot the harness hands to `init` (sequencing itself is C06's business).
 use barter_data::{
@@ -65,11 +67,21 @@ use barter_data::{
     },
     transformer::ExchangeTransformer,
 };
+use barter_data::streams::builder::dynamic::indexed::index_market_data_subscription_batches;
 use barter_instrument::{
-    Keyed, Side,
+    Keyed, Side, Underlying,
+    asset::Asset,
     exchange::ExchangeId,
+    index::IndexedInstruments,
     instrument::{
-        kind::option::{OptionExercise, OptionKind},
+        Instrument, InstrumentIndex,
+        kind::{
+            InstrumentKind,
+            future::FutureContract,
+            option::{OptionContract, OptionExercise, OptionKind},
+            perpetual::PerpetualContract,
+        },
+        quote::InstrumentQuoteAsset,
         market_data::{
             MarketDataInstrument,
             kind::{MarketDataFutureContract, MarketDataInstrumentKind, MarketDataOptionContract},
@@ -266,20 +278,89 @@ fn universe(ikind: &str) -> Vec<MarketDataInstrument> {
 // ------------------------------------------------------------------------------------------------
 // instrument flavours
 // ------------------------------------------------------------------------------------------------
-trait Flavour: InstrumentData<Key = u32> + 'static {
+/// instrument keys: the spec's key n (1..NMARKETS) as the flavour's key type
+trait KeyNum: Clone + std::fmt::Debug + PartialEq + Send + Sync + 'static {
+    fn from_num(n: u32) -> Self;
+    fn num(&self) -> i64;
+}
+impl KeyNum for u32 {
+    fn from_num(n: u32) -> Self {
+        n
+    }
+    fn num(&self) -> i64 {
+        *self as i64
+    }
+}
+/// `InstrumentIndex(i)` is the spec's key i + 1
+impl KeyNum for InstrumentIndex {
+    fn from_num(n: u32) -> Self {
+        InstrumentIndex(n as usize - 1)
+    }
+    fn num(&self) -> i64 {
+        self.0 as i64 + 1
+    }
+}
+
+trait Flavour: InstrumentData<Key: KeyNum> + 'static {
     const NAME: &'static str;
-    fn make(key: u32, mdi: &MarketDataInstrument, name_exchange: &str) -> Self;
+    /// the instruments to subscribe for `markets` (in that order); market m gets key `key_of(m, off)`
+    fn instruments(route: &Route, uni: &[MarketDataInstrument], names: &[String], markets: &[usize], off: i64) -> Result<Vec<Self>, String>;
 }
 impl Flavour for Keyed<u32, MarketDataInstrument> {
     const NAME: &'static str = "keyed";
-    fn make(key: u32, mdi: &MarketDataInstrument, _: &str) -> Self {
-        Keyed::new(key, mdi.clone())
+    fn instruments(_: &Route, uni: &[MarketDataInstrument], _: &[String], markets: &[usize], off: i64) -> Result<Vec<Self>, String> {
+        Ok(markets.iter().map(|m| Keyed::new(key_of(*m, off), uni[*m - 1].clone())).collect())
     }
 }
 impl Flavour for MarketInstrumentData<u32> {
     const NAME: &'static str = "named";
-    fn make(key: u32, mdi: &MarketDataInstrument, name_exchange: &str) -> Self {
-        MarketInstrumentData { key, name_exchange: InstrumentNameExchange::new(name_exchange), kind: mdi.kind.clone() }
+    fn instruments(_: &Route, uni: &[MarketDataInstrument], names: &[String], markets: &[usize], off: i64) -> Result<Vec<Self>, String> {
+        Ok(markets
+            .iter()
+            .map(|m| MarketInstrumentData { key: key_of(*m, off), name_exchange: InstrumentNameExchange::new(names[*m - 1].as_str()), kind: uni[*m - 1].kind.clone() })
+            .collect())
+    }
+}
+/// The INDEXED flavour, built the way the indexed dynamic stream builder builds it: an
+/// `IndexedInstruments` collection holding the whole universe of the route (sorted by the builder on
+/// the internal name, which is chosen so that market m gets `InstrumentIndex(key_of(m, off) - 1)`),
+/// then the real `index_market_data_subscription_batches` turns the un-indexed subscriptions of
+/// `markets` into `Keyed<InstrumentIndex, MarketDataInstrument>` subscriptions.
+impl Flavour for Keyed<InstrumentIndex, MarketDataInstrument> {
+    const NAME: &'static str = "indexed";
+    fn instruments(route: &Route, uni: &[MarketDataInstrument], names: &[String], markets: &[usize], off: i64) -> Result<Vec<Self>, String> {
+        let ex = exchange_id(route.ex);
+        let mut builder = IndexedInstruments::builder();
+        for (j, mdi) in uni.iter().enumerate() {
+            let settle = || Asset::from(mdi.quote.name().as_str());
+            let kind = match &mdi.kind {
+                MarketDataInstrumentKind::Spot => InstrumentKind::Spot,
+                MarketDataInstrumentKind::Perpetual => InstrumentKind::Perpetual(PerpetualContract { contract_size: Decimal::ONE, settlement_asset: settle() }),
+                MarketDataInstrumentKind::Future(c) => InstrumentKind::Future(FutureContract { contract_size: Decimal::ONE, settlement_asset: settle(), expiry: c.expiry }),
+                MarketDataInstrumentKind::Option(c) => InstrumentKind::Option(OptionContract {
+                    contract_size: Decimal::ONE,
+                    settlement_asset: settle(),
+                    kind: c.kind,
+                    exercise: c.exercise,
+                    expiry: c.expiry,
+                    strike: c.strike,
+                }),
+            };
+            builder = builder.add_instrument(Instrument::new(
+                ex,
+                format!("i{}", key_of(j + 1, off)),
+                names[j].as_str(),
+                Underlying::new(mdi.base.name().as_str(), mdi.quote.name().as_str()),
+                InstrumentQuoteAsset::UnderlyingQuote,
+                kind,
+                None,
+            ));
+        }
+        let indexed = builder.build();
+        let batch: Vec<Subscription<ExchangeId, MarketDataInstrument, SubKind>> =
+            markets.iter().map(|m| Subscription::new(ex, uni[*m - 1].clone(), route.sub_kind())).collect();
+        let out = index_market_data_subscription_batches(&indexed, [batch]).map_err(|e| format!("indexing the subscriptions failed: {e}"))?;
+        Ok(out.into_iter().flatten().map(|sub| sub.instrument).collect())
     }
 }
 
@@ -330,16 +411,25 @@ fn level_units(l: &Level) -> Option<(i64, i64)> {
 }
 impl Proj for OrderBookL1 {
     fn proj(&self) -> Result<(Value, Value, &'static str, Option<DateTime<Utc>>), String> {
-        let (Some(bid), Some(ask)) = (self.best_bid, self.best_ask) else {
-            return Err(format!("l1 with a missing side: {self:?}"));
+        let units = |l: &Level| level_units(l).ok_or_else(|| format!("l1 level not in quarter units: {self:?}"));
+        let (bid, ask) = match (self.best_bid, self.best_ask) {
+            (Some(bid), Some(ask)) => (bid, ask),
+            // one-sided book: the event states the other side as absent
+            (Some(bid), None) => {
+                let b = units(&bid)?;
+                return Ok((json!(b.0), json!(b.1), "bid_only", Some(self.last_update_time)));
+            }
+            (None, Some(ask)) => {
+                let a = units(&ask)?;
+                return Ok((json!(a.0), json!(a.1), "ask_only", Some(self.last_update_time)));
+            }
+            (None, None) => return Err(format!("l1 event states neither a best bid nor a best ask: {self:?}")),
         };
-        let (Some(b), Some(a)) = (level_units(&bid), level_units(&ask)) else {
-            return Err(format!("l1 levels not in quarter units: {self:?}"));
-        };
+        let (b, a) = (units(&bid)?, units(&ask)?);
         // the side named by the item holds (p, a), the other one (p+40, a+40)
         let (s, lo, hi) = if b.0 < a.0 { ("buy", b, a) } else { ("sell", a, b) };
         if hi != (lo.0 + 40, lo.1 + 40) {
-            return Err(format!("l1 levels do not belong to one message: bid {b:?} ask {a:?}"));
+            return Err(format!("l1 event states levels the message did not: best bid {b:?} best ask {a:?} (quarter units)"));
         }
         Ok((json!(lo.0), json!(lo.1), s, Some(self.last_update_time)))
     }
@@ -362,31 +452,31 @@ impl Proj for OrderBookEvent {
 
 /// initial snapshots a kind's transformer needs at `init`
 trait KindExt: SubscriptionKind {
-    fn snapshots(keys: &[u32], ex: ExchangeId) -> Vec<MarketEvent<u32, Self::Event>>;
+    fn snapshots<Key: KeyNum>(keys: &[Key], ex: ExchangeId) -> Vec<MarketEvent<Key, Self::Event>>;
 }
 impl KindExt for PublicTrades {
-    fn snapshots(_: &[u32], _: ExchangeId) -> Vec<MarketEvent<u32, PublicTrade>> {
+    fn snapshots<Key: KeyNum>(_: &[Key], _: ExchangeId) -> Vec<MarketEvent<Key, PublicTrade>> {
         vec![]
     }
 }
 impl KindExt for OrderBooksL1 {
-    fn snapshots(_: &[u32], _: ExchangeId) -> Vec<MarketEvent<u32, OrderBookL1>> {
+    fn snapshots<Key: KeyNum>(_: &[Key], _: ExchangeId) -> Vec<MarketEvent<Key, OrderBookL1>> {
         vec![]
     }
 }
 impl KindExt for Liquidations {
-    fn snapshots(_: &[u32], _: ExchangeId) -> Vec<MarketEvent<u32, Liquidation>> {
+    fn snapshots<Key: KeyNum>(_: &[Key], _: ExchangeId) -> Vec<MarketEvent<Key, Liquidation>> {
         vec![]
     }
 }
 impl KindExt for OrderBooksL2 {
-    fn snapshots(keys: &[u32], ex: ExchangeId) -> Vec<MarketEvent<u32, OrderBookEvent>> {
+    fn snapshots<Key: KeyNum>(keys: &[Key], ex: ExchangeId) -> Vec<MarketEvent<Key, OrderBookEvent>> {
         keys.iter()
             .map(|k| MarketEvent {
                 time_exchange: time(0),
                 time_received: time(0),
                 exchange: ex,
-                instrument: *k,
+                instrument: k.clone(),
                 kind: OrderBookEvent::Snapshot(OrderBook::new(SNAPSHOT_SEQ, None, Vec::<Level>::new(), Vec::<Level>::new())),
             })
             .collect()
@@ -401,14 +491,29 @@ struct Item {
     p: i64,
     a: i64,
     buy: bool,
+    /// L1 only: the other book side is empty ("bid_only" / "ask_only")
+    only: bool,
     t: i64,
 }
 impl Item {
     fn from_json(v: &Value) -> Self {
-        Item { p: i(v, "p"), a: i(v, "a"), buy: s(v, "s") == "buy", t: i(v, "t") }
+        let (buy, only) = match s(v, "s") {
+            "buy" => (true, false),
+            "sell" => (false, false),
+            "bid_only" => (true, true),
+            "ask_only" => (false, true),
+            other => usage(&format!("unknown side {other}")),
+        };
+        Item { p: i(v, "p"), a: i(v, "a"), buy, only, t: i(v, "t") }
     }
     fn json(&self) -> Value {
-        json!({"p": self.p, "a": self.a, "s": if self.buy { "buy" } else { "sell" }, "t": self.t})
+        let s = match (self.buy, self.only) {
+            (true, false) => "buy",
+            (false, false) => "sell",
+            (true, true) => "bid_only",
+            (false, true) => "ask_only",
+        };
+        json!({"p": self.p, "a": self.a, "s": s, "t": self.t})
     }
     fn ms(&self) -> i64 {
         epoch_ms() + self.t * 500
@@ -553,7 +658,9 @@ fn parse_requests(fam: Fam, msgs: &[WsMessage]) -> Result<Vec<(String, String)>,
 
 /// L1 encoding: (bid price, bid amount, ask price, ask amount) in quarter units
 fn l1_levels(it: &Item) -> (i64, i64, i64, i64) {
-    if it.buy { (it.p, it.a, it.p + 40, it.a + 40) } else { (it.p + 40, it.a + 40, it.p, it.a) }
+    // an empty side is sent as price 0 / amount 0 (what the connectors' `is_zero` guards expect)
+    let other = if it.only { (0, 0) } else { (it.p + 40, it.a + 40) };
+    if it.buy { (it.p, it.a, other.0, other.1) } else { (other.0, other.1, it.p, it.a) }
 }
 
 /// One venue message about `mk` carrying `items` (exactly one item unless `route.array()`).
@@ -721,16 +828,18 @@ fn key_of(m: usize, off: i64) -> u32 {
     (((m as i64 - 1 + off) % NMARKETS as i64) + 1) as u32
 }
 
-fn make_subs<E, I, K>(kind: &K, uni: &[MarketDataInstrument], names: &[String], markets: &[usize], off: i64) -> Vec<Subscription<E, I, K>>
+fn make_subs<E, I, K>(route: &Route, kind: &K, uni: &[MarketDataInstrument], names: &[String], markets: &[usize], off: i64) -> Result<Vec<Subscription<E, I, K>>, String>
 where
     E: Connector,
     I: Flavour,
     K: SubscriptionKind,
 {
-    markets
-        .iter()
-        .map(|m| Subscription::new(E::default(), I::make(key_of(*m, off), &uni[*m - 1], &names[*m - 1]), kind.clone()))
-        .collect()
+    let instruments = I::instruments(route, uni, names, markets, off)?;
+    if instruments.len() != markets.len() {
+        return Err(format!("{} instruments for {} subscribed markets", instruments.len(), markets.len()));
+    }
+    // the conversion DynamicStreams::init performs for the (ExchangeId, SubKind) arm
+    Ok(instruments.into_iter().map(|i| Subscription::new(E::default(), i, kind.clone())).collect())
 }
 
 /// The venue's listing: for every market of the universe the (channel, symbol) the venue would use,
@@ -744,7 +853,7 @@ where
 {
     (1..=NMARKETS)
         .map(|m| {
-            let subs = make_subs::<E, I, K>(kind, uni, names, &[m], 0);
+            let subs = make_subs::<E, I, K>(route, kind, uni, names, &[m], 0)?;
             let meta = WebSocketSubMapper::map::<E, I, K>(&subs);
             let toks = parse_requests(route.fam, &meta.ws_subscriptions)?;
             match toks.as_slice() {
@@ -770,10 +879,10 @@ where
     I: Flavour,
     K: KindExt + Send + Sync,
     <E as StreamSelector<I, K>>::Stream: HasTransformer,
-    Tr<E, I, K>: ExchangeTransformer<E, u32, K>,
+    Tr<E, I, K>: ExchangeTransformer<E, I::Key, K>,
     Subscription<E, I, K>: Identifier<E::Channel> + Identifier<E::Market>,
 {
-    let subs = make_subs::<E, I, K>(kind, uni, names, markets, off);
+    let subs = make_subs::<E, I, K>(route, kind, uni, names, markets, off)?;
     let meta = WebSocketSubMapper::map::<E, I, K>(&subs);
     let requests: Vec<String> = meta.ws_subscriptions.iter().map(|m| m.to_string()).collect();
     let mut map_ids: Vec<String> = meta.instrument_map.0.keys().map(|k| k.0.to_string()).collect();
@@ -798,7 +907,7 @@ where
         for m in meta.ws_subscriptions.iter().cloned() {
             ws.send(m).await.map_err(|e| format!("loopback send: {e}"))?;
         }
-        let (map, _buffered) = <E::SubValidator as SubscriptionValidator>::validate::<E, u32, K>(meta.instrument_map, &mut ws)
+        let (map, _buffered) = <E::SubValidator as SubscriptionValidator>::validate::<E, I::Key, K>(meta.instrument_map, &mut ws)
             .await
             .map_err(|e| format!("subscription validation failed: {e}"))?;
         chan = bfx.assigned.lock().unwrap().clone();
@@ -807,10 +916,10 @@ where
         meta.instrument_map
     };
 
-    let keys: Vec<u32> = markets.iter().map(|m| key_of(*m, off)).collect();
+    let keys: Vec<I::Key> = markets.iter().map(|m| I::Key::from_num(key_of(*m, off))).collect();
     let snapshots = K::snapshots(&keys, E::ID);
     let (tx, _rx) = tokio::sync::mpsc::unbounded_channel();
-    let transformer = <Tr<E, I, K> as ExchangeTransformer<E, u32, K>>::init(map, &snapshots, tx)
+    let transformer = <Tr<E, I, K> as ExchangeTransformer<E, I::Key, K>>::init(map, &snapshots, tx)
         .await
         .map_err(|e| format!("transformer init failed: {e}"))?;
     Ok(Session { transformer, chan, seq: [SNAPSHOT_SEQ; NMARKETS], requests, map_ids, request_mismatch })
@@ -823,9 +932,10 @@ fn unid_prefix() -> String {
 }
 
 /// parse with the real `WebSocketParser`, transform with the real transformer, project
-fn feed<T, Ev>(route: &Route, t: &mut T, text: &str, out: &mut Vec<Value>)
+fn feed<T, Key, Ev>(route: &Route, t: &mut T, text: &str, out: &mut Vec<Value>)
 where
-    T: Transformer<Output = MarketEvent<u32, Ev>, Error = DataError>,
+    T: Transformer<Output = MarketEvent<Key, Ev>, Error = DataError>,
+    Key: KeyNum,
     Ev: Proj,
 {
     let input = match WebSocketParser::parse::<T::Input>(Ok(WsMessage::text(text.to_string()))) {
@@ -858,7 +968,7 @@ where
                         } else {
                             json!(0)
                         };
-                        rec("ev", json!(ev.instrument), ev.exchange.as_str(), p, a, s, t)
+                        rec("ev", json!(ev.instrument.num()), ev.exchange.as_str(), p, a, s, t)
                     }
                 }
             },
@@ -881,6 +991,7 @@ struct Ctx {
     details: Option<Out>,
     work: Work,
     flavours: Vec<String>,
+    onesided: String,
     stats: serde_json::Map<String, Value>,
 }
 
@@ -912,7 +1023,7 @@ where
     K: KindExt + Send + Sync,
     K::Event: Proj,
     <E as StreamSelector<I, K>>::Stream: HasTransformer,
-    Tr<E, I, K>: ExchangeTransformer<E, u32, K>,
+    Tr<E, I, K>: ExchangeTransformer<E, I::Key, K>,
     Subscription<E, I, K>: Identifier<E::Channel> + Identifier<E::Market>,
 {
     let uni = universe(route.ikind);
@@ -1010,11 +1121,20 @@ where
     match std::mem::replace(&mut ctx.work, Work::Scenarios(vec![])) {
         Work::Scenarios(scns) => {
             for scn in &scns {
+                // generated items range over the four L1 side values; on other routes "bid_only" /
+                // "ask_only" mean "buy" / "sell" (`map`), or the scenario - a duplicate - is skipped
+                let one_sided = |e: &Value| e["fs"].as_array().is_some_and(|x| x.iter().any(|f| f["s"] == "bid_only" || f["s"] == "ask_only"));
+                if route.sk != SK::L1 && ctx.onesided == "skip" && scn["evs"].as_array().expect("evs").iter().any(one_sided) {
+                    continue;
+                }
                 reset(ctx);
                 live = None;
                 for e in scn["evs"].as_array().expect("evs") {
                     let markets: Vec<usize> = e["S"].as_array().map(|x| x.iter().map(|v| v.as_u64().unwrap() as usize).collect()).unwrap_or_default();
-                    let fs: Vec<Item> = e["fs"].as_array().map(|x| x.iter().map(Item::from_json).collect()).unwrap_or_default();
+                    let mut fs: Vec<Item> = e["fs"].as_array().map(|x| x.iter().map(Item::from_json).collect()).unwrap_or_default();
+                    if route.sk != SK::L1 {
+                        fs.iter_mut().for_each(|f| f.only = false);
+                    }
                     step!(s(e, "a"), markets, e["off"].as_i64().unwrap_or(0), e["m"].as_u64().unwrap_or(0) as usize, fs);
                 }
             }
@@ -1045,7 +1165,7 @@ where
                     let m = rng.random_range(1..=NMARKETS);
                     let n = if route.array() { [1, 1, 2, 3][rng.random_range(0..4)] } else { 1 };
                     let fs: Vec<Item> = (0..n)
-                        .map(|_| Item { p: [2, 6, 10, 14, 401][rng.random_range(0..5)], a: [1, 5, 9, 4000][rng.random_range(0..4)], buy: rng.random_bool(0.5), t: rng.random_range(0..=9) })
+                        .map(|_| Item { p: [2, 6, 10, 14, 401][rng.random_range(0..5)], a: [1, 5, 9, 4000][rng.random_range(0..4)], buy: rng.random_bool(0.5), only: route.sk == SK::L1 && rng.random_range(0..3) == 0, t: rng.random_range(0..=9) })
                         .collect();
                     step!("Message", vec![], 0, m, fs);
                 }
@@ -1063,6 +1183,7 @@ macro_rules! route {
         let none: Vec<String> = vec![String::new(); NMARKETS];
         let names = run_flavour::<$E, Keyed<u32, MarketDataInstrument>, _>($K, $r, &none, $ctx, $bfx).await;
         run_flavour::<$E, MarketInstrumentData<u32>, _>($K, $r, &names, $ctx, $bfx).await;
+        run_flavour::<$E, Keyed<InstrumentIndex, MarketDataInstrument>, _>($K, $r, &names, $ctx, $bfx).await;
     }};
 }
 
@@ -1133,7 +1254,8 @@ async fn main() {
         out: Out::create(args.req("out")),
         details: args.get("details").map(Out::create),
         work,
-        flavours: args.str("flavours", "keyed,named").split(',').map(|x| x.to_string()).collect(),
+        flavours: args.str("flavours", "keyed,named,indexed").split(',').map(|x| x.to_string()).collect(),
+        onesided: args.str("onesided", "map"),
         stats: serde_json::Map::new(),
     };
     let bfx = bfx_server().await;
